@@ -85,9 +85,33 @@ void runRoute(const Scn &scn, Out &out)
     THandler *root = nullptr;
     QByteArray raw;
     bool noroot = false, late = false, unsetlate = false, soft = false;
-    foreach (const QString &t, scn.toks) if (t == "soft") soft = true;
+    foreach (const QString &t, scn.toks) {
+        if (t == "soft") soft = true;
+        else if (t == "noroot") noroot = true;
+        else if (t == "late") late = true;
+        else if (t == "unsetlate") unsetlate = true;
+    }
+    Server *server = new Server;
+    ServerPrivate *sp = server->findChild<ServerPrivate *>();
     foreach (const QString &t, scn.toks) {
         QStringList p = t.split(':');
+        if (p[0] == "warm") {
+            // an earlier request on another connection against the tree as built so far; what it
+            // does is not recorded: routing of the observed request must not depend on it
+            if (root && !noroot && !late) server->setHandler(root);
+            int mark = obs->size();
+            QStringList sink;
+            QPointer<SimTcp> wt = new SimTcp;
+            wt->log = &sink;
+            sp->process(wt);
+            if (wt) wt->feed("GET " + unhx(p[1]) + " HTTP/1.1\r\n\r\n");
+            eventTurn();
+            if (wt) { wt->log = nullptr; wt->peerClose(); }
+            eventTurn();
+            if (wt) { wt->log = nullptr; }
+            while (obs->size() > mark) obs->removeLast();
+            continue;
+        }
         if (p[0] == "pat") pats[p[1].toInt()] = QRegExp(un16(p[2]));
         else if (p[0] == "node") {
             THandler *h = new THandler(p[1].toInt(), p[4] == "1", obs);
@@ -98,9 +122,6 @@ void runRoute(const Scn &scn, Out &out)
         else if (p[0] == "redir") nodes[p[1].toInt()]->addRedirect(pats[p[2].toInt()], un16(p[3]));
         else if (p[0] == "mw") { TMiddleware *m = new TMiddleware(p[2].toInt(), p[3] == "1", obs); m->soft = soft; owned << m; nodes[p[1].toInt()]->addMiddleware(m); }
         else if (p[0] == "req") raw = unhx(p[1]);
-        else if (p[0] == "noroot") noroot = true;
-        else if (p[0] == "late") late = true;
-        else if (p[0] == "unsetlate") unsetlate = true;
     }
     QByteArray stream = "GET " + raw + " HTTP/1.1\r\n\r\n";
     urlOracle(stream, out);
@@ -123,12 +144,10 @@ void runRoute(const Scn &scn, Out &out)
         }
     }
 
-    Server *server = new Server;
     // `late`: the handler is installed only after the connection was accepted;
     // `unsetlate`: it is removed after the connection was accepted (the handler in force when the
     // headers are parsed decides)
     if (root && !noroot && !late) server->setHandler(root);
-    ServerPrivate *sp = server->findChild<ServerPrivate *>();
     QPointer<SimTcp> tcp = new SimTcp;
     tcp->log = obs;
     *obs << "e:0";
